@@ -704,6 +704,9 @@ func (e *Env) evalCall(n *Node, want string) Term {
 		gt := e.resolveType(typeArg(args[0]))
 		reg := c.elemRegion(gt)
 		return Term{S: c.get(e.st, reg), Sort: c.regSort[reg]}
+	case "addr":
+		// addr(x) / addr(x.f.g): address of an address-taken local variable or of a by-value struct field inside it
+		return e.addrOf(args[0])
 	case "ref":
 		x := e.eval(args[0], "")
 		if x.Sort == SSlice {
@@ -920,6 +923,48 @@ func (c *FnCtx) modRegions(env *Env, n *Node) []string {
 
 // subRef: the derived reference of the by-value aggregate field i of the object at ref
 // (negative, hence disjoint from every ordinary reference; injective in (ref, i)).
+// addrOf: the pointer term for addr(...) in contracts.
+func (e *Env) addrOf(n *Node) Term {
+	c := e.c
+	switch n.Op {
+	case "id":
+		if p, ok := e.names["&"+n.Name]; ok && p.Sort == SInt {
+			return p
+		}
+		if e.fr != nil && e.fr.fn != nil {
+			if a := allocNamed(e.fr.fn, n.Name); a != nil {
+				if pv, ok := c.vals[a].(Term); ok && pv.Sort == SInt {
+					return pv
+				}
+			}
+		}
+		c.fail("addr(%s): not an address-taken variable with a heap cell", n.Name)
+	case "sel":
+		base := e.addrOf(n.Args[0])
+		pt, ok := base.T.Underlying().(*types.Pointer)
+		if !ok {
+			c.fail("addr(%s): base is not a pointer", n)
+		}
+		su, ok := pt.Elem().Underlying().(*types.Struct)
+		if !ok {
+			c.fail("addr(%s): base does not point to a struct", n)
+		}
+		for i := 0; i < su.NumFields(); i++ {
+			if su.Field(i).Name() == n.Name {
+				ft := su.Field(i).Type()
+				switch ft.Underlying().(type) {
+				case *types.Struct, *types.Array:
+					return Term{S: subRef(base.S, i), Sort: SInt, T: types.NewPointer(ft)}
+				}
+				c.fail("addr(%s): only by-value struct/array fields have an address in this model", n)
+			}
+		}
+		c.fail("addr(%s): no such field", n)
+	}
+	c.fail("addr(%s): unsupported expression", n)
+	return Term{}
+}
+
 func subRef(ref string, i int) string {
 	return fmt.Sprintf("(- (+ (* 1024 %s) %d))", ref, i+1)
 }
